@@ -34,8 +34,8 @@ ASSUMPTIONS = [
 REQUIRED_STATS = ['c05_blocks_checked', 'c05_failing_blocks']
 
 TIMES = [0, 0.5, 1]
-KINDS = ['err', 'key', 'lookup', 'assert', 'eq', 'eq', 'falsy', 'stream', 'unavailable']
-ALL_KINDS = ['err', 'err', 'key', 'index', 'lookup', 'assert', 'exit', 'kbd', 'eq', 'eq', 'falsy',
+KINDS = ['err', 'key', 'lookup', 'assert', 'eq', 'eq', 'falsy', 'stream', 'unavailable', 'twin']
+ALL_KINDS = ['err', 'err', 'twin', 'key', 'index', 'lookup', 'assert', 'exit', 'kbd', 'eq', 'eq', 'falsy',
              'stream', 'unavailable', 'interval']
 if not __debug__:
     # failures that are no Exception at all: wrapped like any other (in debug mode `Concurrent`
